@@ -83,9 +83,11 @@ theorem zip_map_snd_zip {α β γ : Type} (f : α → β → γ) (l1 : List α) 
 def snappedOf (tol : K) (z : List (Basis K × List K)) : List (Basis K × List K) :=
   z.map (fun (b, ps) => (b, ps.map (snap b tol)))
 
-/-- The domain test of `_validate_domain` as a function of the zipped list. -/
+/-- The domain test of `_validate_domain` as a function of the zipped list (an empty list in a
+non-periodic direction fails it: `min()` of an empty sequence). -/
 def domainBad (tol : K) (z : List (Basis K × List K)) : Bool :=
-  (snappedOf tol z).any (fun (b, ps) => b.periodic < 0 ∧ ps.any (fun t => t < b.start ∨ b.stop < t))
+  (snappedOf tol z).any (fun (b, ps) => b.periodic < 0 ∧
+    (ps.isEmpty ∨ ps.any (fun t => t < b.start ∨ b.stop < t)))
 
 /-- The basis matrices of `evaluate` as a function of the zipped list. -/
 def matsOf (tol : K) (z : List (Basis K × List K)) : List (Mat K) :=
